@@ -261,8 +261,18 @@ func init() {
 			return out
 		},
 		"strings.Contains":  func(fr *frame, a []value) value { return strings.Contains(concStr(a[0], "strings.Contains"), concStr(a[1], "strings.Contains")) },
-		"strings.ToLower":   func(fr *frame, a []value) value { return strings.ToLower(concStr(a[0], "strings.ToLower")) },
-		"strings.ToUpper":   func(fr *frame, a []value) value { return strings.ToUpper(concStr(a[0], "strings.ToUpper")) },
+		"strings.ToLower": func(fr *frame, a []value) value {
+			if s, ok := a[0].(string); ok {
+				return strings.ToLower(s)
+			}
+			return "<symbolic string, case-mapped>" // only reaches messages in the encoded code
+		},
+		"strings.ToUpper": func(fr *frame, a []value) value {
+			if s, ok := a[0].(string); ok {
+				return strings.ToUpper(s)
+			}
+			return "<symbolic string, case-mapped>"
+		},
 		"strings.EqualFold": func(fr *frame, a []value) value {
 			x, xok := a[0].(string)
 			y, yok := a[1].(string)
